@@ -105,4 +105,13 @@ func VerifC05CrossRename() {
 	verifAssert(ok, "a failed cross-mount rename is not a *LinkError")
 	verifAssert(le.Old == "src/d/f" && le.New == "dst/g", "the LinkError does not name the caller's old and new paths")
 	verifAssert(errors.Is(err, errC05Injected), "the LinkError does not carry the inner cause")
+	// and the file is not lost: whichever step failed, its complete bytes are still at the source or already
+	// at the destination (C06: a failed move does not destroy what it moves)
+	srcFS.fail, dstFS.fail = 0, 0
+	want := verifBytes("data", 1)
+	atSrc, e1 := hackpadfs.ReadFile(srcFS.fs, "d/f")
+	atDst, e2 := hackpadfs.ReadFile(dstFS.fs, "g")
+	okSrc := e1 == nil && len(atSrc) == 1 && atSrc[0] == want[0]
+	okDst := e2 == nil && len(atDst) == 1 && atDst[0] == want[0]
+	verifAssert(okSrc || okDst, "after a failed cross-mount rename the file is neither at the source nor at the destination")
 }
